@@ -412,7 +412,14 @@ func genReq0(t *rapid.T, c Case, idx int) Req {
 		notes = append(notes, lay.name+"/"+mk)
 	}
 	// special deep layouts
-	switch rapid.SampledFrom([]string{"plain", "plain", "plain", "smbconnect", "smbcommand", "checkin", "nest"}).Draw(t, "special") {
+	switch rapid.SampledFrom([]string{"plain", "plain", "plain", "smbconnect", "smbcommand", "checkin", "nest", "socklife"}).Draw(t, "special") {
+	case "socklife":
+		// LIFECYCLE of one socket id: a run of well-formed COMMAND_SOCKET callbacks that all name the SAME id, in any
+		// order - opened and never used, removed / closed before the first data, removed twice, used after removal, ...
+		// (the id 77 is also the one the sock.open / sock.read.client layouts name, so runs continue across requests)
+		ls, ln := genSockLife(t)
+		subs = append(subs, ls...)
+		notes = append(notes, ln...)
 	case "smbconnect":
 		k, iv := keyOf(7, rapid.Bool().Draw(t, "czk"))
 		cid := rapid.SampledFrom([]uint32{0x0d0d0d0d, agentIDs[0], agentIDs[1], childID, 0}).Draw(t, "cid")
@@ -508,6 +515,75 @@ func genReq0(t *rapid.T, c Case, idx int) Req {
 	r.Note = "B|" + strings.Join(notes, ",") + "|hdr=" + hm
 	r.Invalid = invalid
 	return r
+}
+
+// genSockLife: 2-5 well-formed COMMAND_SOCKET callbacks about one socket id (see "socklife" in genReq0).
+func genSockLife(t *rapid.T) ([]demonref.Sub, []string) {
+	id := rapid.SampledFrom([]uint32{77, 77, 77, 78, 0, 0x80000000, 0xffffffff}).Draw(t, "life-id")
+	n := rapid.IntRange(1, 4).Draw(t, "life-n")
+	var ops []string
+	if rapid.IntRange(0, 3).Draw(t, "life-open-first") > 0 {
+		ops = append(ops, "open")
+	}
+	for i := 0; i < n; i++ {
+		ops = append(ops, rapid.SampledFrom([]string{"open", "read.client", "read.client", "read.proxy", "read.fail", "write.fail", "close.proxy", "close.client", "connect.ok", "connect.fail", "rpremove", "rpremove", "rpremove.othertype"}).Draw(t, "life-op"))
+	}
+	const lo = 0x0100007f // 127.0.0.1 as the Demon reports it
+	var subs []demonref.Sub
+	var notes []string
+	for i, op := range ops {
+		e := &demonref.Enc{}
+		switch op {
+		case "open":
+			e.Int32(16).Int32(id).Int32(lo).Int32(4444).Int32(lo).Int32(9)
+		case "read.client":
+			e.Int32(17).Int32(id).Int32(3).Int32(1).Bytes(rapid.SliceOfN(rapid.Byte(), 0, 16).Draw(t, "life-data"))
+		case "read.proxy":
+			e.Int32(17).Int32(id).Int32(2).Int32(1).Bytes([]byte("data"))
+		case "read.fail":
+			e.Int32(17).Int32(id).Int32(3).Int32(0).Int32(10054)
+		case "write.fail":
+			e.Int32(18).Int32(id).Int32(3).Int32(0).Int32(10054)
+		case "close.proxy":
+			e.Int32(19).Int32(id).Int32(2)
+		case "close.client":
+			e.Int32(19).Int32(id).Int32(3)
+		case "connect.ok":
+			e.Int32(20).Int32(1).Int32(id).Int32(0)
+		case "connect.fail":
+			e.Int32(20).Int32(0).Int32(id).Int32(10061)
+		case "rpremove":
+			e.Int32(4).Int32(id).Int32(1).Int32(lo).Int32(4444).Int32(lo).Int32(9)
+		case "rpremove.othertype":
+			e.Int32(4).Int32(id).Int32(3).Int32(lo).Int32(4444).Int32(lo).Int32(9)
+		}
+		subs = append(subs, demonref.Sub{Cmd: 2540, ReqID: outstanding + uint32(i%5), Body: e.B})
+		notes = append(notes, "sock.life."+op+"/lifecycle")
+	}
+	return subs, notes
+}
+
+// lifeLabels: the adjacent pairs of every socket lifecycle run of the case, e.g. lifecycle:sock:open>rpremove
+func lifeLabels(c Case) []string {
+	var out []string
+	for _, r := range c.Reqs {
+		if r.Class != "B" || !strings.Contains(r.Note, "sock.life.") {
+			continue
+		}
+		out = append(out, "lifecycle:sock")
+		prev := ""
+		for _, p := range strings.Split(strings.Split(r.Note, "|")[1], ",") {
+			if !strings.HasPrefix(p, "sock.life.") {
+				continue
+			}
+			op := strings.TrimSuffix(strings.TrimPrefix(p, "sock.life."), "/lifecycle")
+			if prev != "" {
+				out = append(out, "lifecycle:sock:"+prev+">"+op)
+			}
+			prev = op
+		}
+	}
+	return out
 }
 
 func liveID(c Case, id uint32) bool {
@@ -866,6 +942,7 @@ func classify(c Case) core.Class {
 		cl.NonTrivial = true // the bulk is valid traffic of a registered session by construction
 	}
 	cl.Labels = append(cl.Labels, cfgLabels(c)...)
+	cl.Labels = append(cl.Labels, lifeLabels(c)...)
 	last := c.Reqs[len(c.Reqs)-1]
 	cl.Fingerprint = fmt.Sprintf("%s|n=%d|p=%v|s=%v|d=%v|len=%d", cls(last), c.NAgents, c.Pivot, c.Service, c.Download, bucket(len(last.Raw)))
 	if c.Scale != nil {
@@ -891,7 +968,7 @@ var _ = bytes.Equal
 func TestC01(t *testing.T) {
 	core.Run(t, core.Spec[Case]{
 		Property: "C01", Sub: "a",
-		Rule: "state (0-3 registered agents incl. id >= 2^31 and a zero-key agent, SMB child, three open downloads whose announced sizes include 0, 2^63 and 2^64-1, Service block on/off, five outstanding request ids on every agent) built through the real endpoints, then 1-4 requests (2-6 in the half of the cases that focus on one family of layouts - downloads, sockets, tokens, jobs, ... - so that one handler sees a run of related messages) via the HTTP listener engine or the External-C2 handler: one request in twenty announces a Content-Length that is not its body's length (0, -1, 1, 2^20 ... 2^63-1); A random bytes (all lengths 0-24, up to 300); B batches of 1-3 grammar-valid callbacks drawn from 140 command/sub-command layouts of TaskDispatch, each corrupted by integer fields also drawn from the keys of the lookup tables TaskDispatch indexes (win32.Protections, InjectErrors, Win32ErrorCodes as found in the tree under test); truncation / length-prefix rewrite / appended bytes / bit flip, plus SMB_CONNECT with a (cut / mismatching) child registration, relayed SMB_COMMAND packages, CHECKIN metadata, self-nested pivot packages to depth 400, header corruptions (magic, unknown id, id 0, other key, header command, cut, size); C registrations (valid, truncated, id mismatch, existing id, zero key, trailing bytes). Oracle: no panic, returns within 30 s, status 200/404, all agent mutexes free, traffic classified invalid by the harness gets 404 and leaves sessions/queues/DB/loot identical. Non-trivial: a class B/C request that passes header, magic and session lookup; distinct = (class:first layout, #agents, pivot, service, download, length bucket) SCALE (scale_test.go; 3 cases in 128, labels scale:<what>:<bucket>): the case carries a BULK of N objects of one kind for one session, N drawn from the threshold-adjacent pool {63,64,65, 127,128,129, 255,256,257, 511,512,513, 999,1000,1001, 1023,1024,1025, 2047,2048,2049, 4095,4096,4097, 8191,8192,8193} (three bulks in eight stop at 999-1025), with N consecutive distinct ids starting at 0, 1, 70, 0x1000, 2^31-256 or 2^32-256 (crossing the sign bit / wrapping), pushed into one of the tables the teamserver keeps per session by the callback (or the operator-side call) that adds to it: portfwd = SOCKET_COMMAND_OPEN (Agent.PortFwds, always accepted; up to 8193), socks = SocksClientAdd as the socks accept loop calls it, then CONNECT ok / CONNECT+READ / CONNECT refused / CONNECT+CLOSE callbacks for every id (Agent.SocksCli; up to 4097), download = FS download-open or BEACON CALLBACK_FILE under an outstanding request id (Agent.Downloads, one file each; up to 4097), links = DEMON_PIVOT_SMB_CONNECT with the registration of one more SMB child (Pivots.Links + session table; up to 1025), bof = Agent.TaskPrepare(COMMAND_INLINEEXECUTE, HasCallback) + AddJobToQueue as DispatchEvent does, then BEACON output + RAN_OK / COULD_NOT_RUN for every task (BofCallbacks, Tasks, JobQueue incl. mem-file chunks; up to 2049), jobs = the same with sleep tasks and their callbacks (Tasks, JobQueue; up to 2049), sessions = N DEMON_INIT registrations with distinct agent ids (session table; up to 1025), callbacks = one generated layout of the focus family repeated N times, one of its free integer fields (preferably the first = the object id) taking the N ids, every copy answering an outstanding request id of its own (N outstanding ids through AddRequest) or the shared one (up to 4097); the quick tier cuts the pool at what one case affords (8193 only for table appends; ~1 ms per session / link), the thorough tier goes one step further up (8193 / 4097 / 2049). The bulk is cut into requests of PerReq callbacks: all N in ONE request (64-8193 sub-packages in a batch), one per request (up to 1025 requests in the case) or a threshold-adjacent number; via the HTTP engine or External-C2; one in four of the bulks of a state with an SMB child belongs to the child and arrives relayed inside SMB_COMMAND packages of agent 0. The 2-6 ordinary requests of the case focus on the family of the bulk and are placed before it, between its two halves and after it. Oracle at scale: every bulk request returns within 30 s with 200/404 and without panic; at the checkpoints (after the first half, when the count is reached, after ONE MORE object of the same kind sent through the ordinary path with the whole oracle, and after the closing plain check-ins) no session entry is nil and PortFwdsMtx, SocksCliMtx, SocksSvrMtx and QueueMtx of every session can be taken; the closing check-in of the session (which exists) must get the protocol reply 200. CONFIGURATION / ENVIRONMENT (cfg_test.go; labels cfg:<option>=<class>, env:<condition>, http:/method:/target:/proto:/remote:/hdr:/hval:/xff:<class>, also published as the extra counter a_cfg_env_http_label_counts_last_shard): the HTTP listener of the case is built from a GENERATED configuration - half of the cases keep the historical default (nothing configured), the others draw every option (*HTTP).request reads on its own: BehindRedir = profile Demon { TrustXForwardedFor } (three in four), Uris (none, a single empty entry = no filter, one, two incl. a query, escaped + root, 300 bytes), Headers (one, two incl. a value containing \": \", only the ignored Connection / Accept-Encoding, an entry without \": \", an empty value), UserAgent (browser string, short), Response.Headers (plain, value with colons + entry without colon, empty name), plus HostHeader and Methode (carried in the configuration; request() does not read them; Secure is out: the engine is driven in-process); under a configured listener all state-building and bulk requests go out in the shape its filters demand. Two requests in five carry a generated HTTP LAYER as the peer controls it - written to wire bytes and read back by net/http's own request reader plus the pre-handler checks of its server (agx.HTTPReq; self-test against a real http.Server in agx/http_test.go), so the handler sees exactly what a socket delivers, and a request net/http answers by itself is counted (\"net/http refuses\") but not judged: method (POST; GET PUT HEAD OPTIONS DELETE PATCH CONNECT, lower / mixed case, unknown, syntactically invalid), request-target (/, a configured URI, with query / trailing slash / in absolute form, 8193 bytes, 8193-byte query, %00, %2f..%2f, //, /../.., /./, raw NUL, bad escape, absolute form with and without path, *, non-ASCII, fragment), HTTP/1.0 and requests without Host, remote address IPv4 / IPv6 / IPv6 zone, and 0-4 header lines (or 64 / 65 / 1024 / 1025 lines of one name) whose names come from the ones HEAD reads (X-Forwarded-For weighted, User-Agent, Host, Content-Type, Content-Length, Transfer-Encoding, Connection, Accept-Encoding, the configured names) and unknown / invalid names in varying case, with values from the classes empty, blanks only, tab only, one comma, commas only, comma(s) and blanks, lists with a leading / inner / trailing empty member, 8193 bytes, 8193 commas, a 1000-member list, non-ASCII, HTAB inside, a control character, quoted, \": \" inside, the configured value / user agent in the same and in swapped case, IPv4 / IPv4 list / IPv6 / bracketed IPv6 with port / IPv6 zone / IPv4 with port / garbage / unknown / out-of-range octets for X-Forwarded-For, Content-Length = real, 0, real-1, real+1, non-numeric, huge, signed, Transfer-Encoding chunked (with a really chunked body or not) / gzip / identity; half of the layers are built to pass the listener's filters (configured target, lines and user agent before or after the generated lines), and behind a redirector three layers in four carry the X-Forwarded-For line a redirector adds. Environment: time.Local set for the case (UTC, +05:30, -08:00, +12:00, +14:00, -12:00, +05:45; restored); one case in four registers its agents with a kill date in the past / future / now-1s / now+1s and / or working hours that contain / exclude the local time; one case in 64 handles ONE of its requests with RLIMIT_NOFILE lowered to 0, 1 or 2 free descriptors (restored before the oracle reads state) - that case runs in a child process of its own (TestC01Child), because the code under test may end the process: a child that ends without a verdict is the violation process-exit|fd-limit|<last line>; a child that cannot be started or does not finish is counted as no verdict (a_env_fd_limit_no_verdict_last_shard). Oracle under configuration: unchanged - no panic (the in-process ServeHTTP call panics straight into the guard), returns within 30 s, 200/404, mutexes free; what a configuration legitimately changes is modelled per HEAD: a request the router does not hand to request() (method other than POST: gin's or the decoy's 404; an empty path: gin's 301/307 redirect) or that fails the configured header (case-insensitive value, first line of the name, Connection / Accept-Encoding ignored) / URI (exact request-target) / user-agent (exact) filter is rejected traffic: never 200, state untouched; a request whose announced framing delivers other body bytes than the classified ones is judged on panic / termination / status / locks only.",
+		Rule: "state (0-3 registered agents incl. id >= 2^31 and a zero-key agent, SMB child, three open downloads whose announced sizes include 0, 2^63 and 2^64-1, Service block on/off, five outstanding request ids on every agent) built through the real endpoints, then 1-4 requests (2-6 in the half of the cases that focus on one family of layouts - downloads, sockets, tokens, jobs, ... - so that one handler sees a run of related messages) via the HTTP listener engine or the External-C2 handler: one request in twenty announces a Content-Length that is not its body's length (0, -1, 1, 2^20 ... 2^63-1); A random bytes (all lengths 0-24, up to 300); B batches of 1-3 grammar-valid callbacks drawn from 140 command/sub-command layouts of TaskDispatch, each corrupted by integer fields also drawn from the keys of the lookup tables TaskDispatch indexes (win32.Protections, InjectErrors, Win32ErrorCodes as found in the tree under test); truncation / length-prefix rewrite / appended bytes / bit flip, plus SMB_CONNECT with a (cut / mismatching) child registration, relayed SMB_COMMAND packages, CHECKIN metadata, self-nested pivot packages to depth 400, header corruptions (magic, unknown id, id 0, other key, header command, cut, size), and (one class B request in eight; labels lifecycle:sock, lifecycle:sock:<op>><next op>, layout:sock.life.<op>) a socket LIFECYCLE run appended to the batch: 2-5 well-formed COMMAND_SOCKET callbacks that all name the same socket id (77 = the id of the sock.open layouts, 78, 0, 2^31, 2^32-1), three in four starting with SOCKET_COMMAND_OPEN, then in any order OPEN again / READ of type client with data (the first one dials the forward target) / READ of type proxy / failed READ / failed WRITE / CLOSE of type proxy or client / CONNECT ok or refused / RPORTFWD_REMOVE with type reverse-port-forward or another type - so an entry is removed before it ever carried data, removed twice, read after removal, re-opened after removal, with the whole oracle on the request; C registrations (valid, truncated, id mismatch, existing id, zero key, trailing bytes). Oracle: no panic, returns within 30 s, status 200/404, all agent mutexes free, traffic classified invalid by the harness gets 404 and leaves sessions/queues/DB/loot identical. Non-trivial: a class B/C request that passes header, magic and session lookup; distinct = (class:first layout, #agents, pivot, service, download, length bucket) SCALE (scale_test.go; 3 cases in 128, labels scale:<what>:<bucket>): the case carries a BULK of N objects of one kind for one session, N drawn from the threshold-adjacent pool {63,64,65, 127,128,129, 255,256,257, 511,512,513, 999,1000,1001, 1023,1024,1025, 2047,2048,2049, 4095,4096,4097, 8191,8192,8193} (three bulks in eight stop at 999-1025), with N consecutive distinct ids starting at 0, 1, 70, 0x1000, 2^31-256 or 2^32-256 (crossing the sign bit / wrapping), pushed into one of the tables the teamserver keeps per session by the callback (or the operator-side call) that adds to it: portfwd = SOCKET_COMMAND_OPEN (Agent.PortFwds, always accepted; up to 8193), socks = SocksClientAdd as the socks accept loop calls it, then CONNECT ok / CONNECT+READ / CONNECT refused / CONNECT+CLOSE callbacks for every id (Agent.SocksCli; up to 4097), download = FS download-open or BEACON CALLBACK_FILE under an outstanding request id (Agent.Downloads, one file each; up to 4097), links = DEMON_PIVOT_SMB_CONNECT with the registration of one more SMB child (Pivots.Links + session table; up to 1025), bof = Agent.TaskPrepare(COMMAND_INLINEEXECUTE, HasCallback) + AddJobToQueue as DispatchEvent does, then BEACON output + RAN_OK / COULD_NOT_RUN for every task (BofCallbacks, Tasks, JobQueue incl. mem-file chunks; up to 2049), jobs = the same with sleep tasks and their callbacks (Tasks, JobQueue; up to 2049), sessions = N DEMON_INIT registrations with distinct agent ids (session table; up to 1025), callbacks = one generated layout of the focus family repeated N times, one of its free integer fields (preferably the first = the object id) taking the N ids, every copy answering an outstanding request id of its own (N outstanding ids through AddRequest) or the shared one (up to 4097); the quick tier cuts the pool at what one case affords (8193 only for table appends; ~1 ms per session / link), the thorough tier goes one step further up (8193 / 4097 / 2049). The bulk is cut into requests of PerReq callbacks: all N in ONE request (64-8193 sub-packages in a batch), one per request (up to 1025 requests in the case) or a threshold-adjacent number; via the HTTP engine or External-C2; one in four of the bulks of a state with an SMB child belongs to the child and arrives relayed inside SMB_COMMAND packages of agent 0. The 2-6 ordinary requests of the case focus on the family of the bulk and are placed before it, between its two halves and after it. Oracle at scale: every bulk request returns within 30 s with 200/404 and without panic; at the checkpoints (after the first half, when the count is reached, after ONE MORE object of the same kind sent through the ordinary path with the whole oracle, and after the closing plain check-ins) no session entry is nil and PortFwdsMtx, SocksCliMtx, SocksSvrMtx and QueueMtx of every session can be taken; the closing check-in of the session (which exists) must get the protocol reply 200. CONFIGURATION / ENVIRONMENT (cfg_test.go; labels cfg:<option>=<class>, env:<condition>, http:/method:/target:/proto:/remote:/hdr:/hval:/xff:<class>, also published as the extra counter a_cfg_env_http_label_counts_last_shard): the HTTP listener of the case is built from a GENERATED configuration - half of the cases keep the historical default (nothing configured), the others draw every option (*HTTP).request reads on its own: BehindRedir = profile Demon { TrustXForwardedFor } (three in four), Uris (none, a single empty entry = no filter, one, two incl. a query, escaped + root, 300 bytes), Headers (one, two incl. a value containing \": \", only the ignored Connection / Accept-Encoding, an entry without \": \", an empty value), UserAgent (browser string, short), Response.Headers (plain, value with colons + entry without colon, empty name), plus HostHeader and Methode (carried in the configuration; request() does not read them; Secure is out: the engine is driven in-process); under a configured listener all state-building and bulk requests go out in the shape its filters demand. Two requests in five carry a generated HTTP LAYER as the peer controls it - written to wire bytes and read back by net/http's own request reader plus the pre-handler checks of its server (agx.HTTPReq; self-test against a real http.Server in agx/http_test.go), so the handler sees exactly what a socket delivers, and a request net/http answers by itself is counted (\"net/http refuses\") but not judged: method (POST; GET PUT HEAD OPTIONS DELETE PATCH CONNECT, lower / mixed case, unknown, syntactically invalid), request-target (/, a configured URI, with query / trailing slash / in absolute form, 8193 bytes, 8193-byte query, %00, %2f..%2f, //, /../.., /./, raw NUL, bad escape, absolute form with and without path, *, non-ASCII, fragment), HTTP/1.0 and requests without Host, remote address IPv4 / IPv6 / IPv6 zone, and 0-4 header lines (or 64 / 65 / 1024 / 1025 lines of one name) whose names come from the ones HEAD reads (X-Forwarded-For weighted, User-Agent, Host, Content-Type, Content-Length, Transfer-Encoding, Connection, Accept-Encoding, the configured names) and unknown / invalid names in varying case, with values from the classes empty, blanks only, tab only, one comma, commas only, comma(s) and blanks, lists with a leading / inner / trailing empty member, 8193 bytes, 8193 commas, a 1000-member list, non-ASCII, HTAB inside, a control character, quoted, \": \" inside, the configured value / user agent in the same and in swapped case, IPv4 / IPv4 list / IPv6 / bracketed IPv6 with port / IPv6 zone / IPv4 with port / garbage / unknown / out-of-range octets for X-Forwarded-For, Content-Length = real, 0, real-1, real+1, non-numeric, huge, signed, Transfer-Encoding chunked (with a really chunked body or not) / gzip / identity; half of the layers are built to pass the listener's filters (configured target, lines and user agent before or after the generated lines), and behind a redirector three layers in four carry the X-Forwarded-For line a redirector adds. Environment: time.Local set for the case (UTC, +05:30, -08:00, +12:00, +14:00, -12:00, +05:45; restored); one case in four registers its agents with a kill date in the past / future / now-1s / now+1s and / or working hours that contain / exclude the local time; one case in 64 handles ONE of its requests with RLIMIT_NOFILE lowered to 0, 1 or 2 free descriptors (restored before the oracle reads state) - that case runs in a child process of its own (TestC01Child), because the code under test may end the process: a child that ends without a verdict is the violation process-exit|fd-limit|<last line>; a child that cannot be started or does not finish is counted as no verdict (a_env_fd_limit_no_verdict_last_shard). Oracle under configuration: unchanged - no panic (the in-process ServeHTTP call panics straight into the guard), returns within 30 s, 200/404, mutexes free; what a configuration legitimately changes is modelled per HEAD: a request the router does not hand to request() (method other than POST: gin's or the decoy's 404; an empty path: gin's 301/307 redirect) or that fails the configured header (case-insensitive value, first line of the name, Connection / Accept-Encoding ignored) / URI (exact request-target) / user-agent (exact) filter is rejected traffic: never 200, state untouched; a request whose announced framing delivers other body bytes than the classified ones is judged on panic / termination / status / locks only.",
 		Gen:   gen, Check: check, Classify: classify,
 		Assumptions: []string{
 			"no third-party agent type is registered in generated states, so every non-Demon magic value is invalid traffic",
